@@ -553,5 +553,32 @@ func scenariosC18(tier string) []Scen {
 			}
 		}
 	}
+	// the two primitives mixed on one connection while one of them is given up (cancelled, timed out, or cancelled
+	// under a context that also has a deadline): C17's scenarios whose operations include both a delimiter read and
+	// a raw read; whatever the abandoned operation had consumed, the later ones never deliver a byte out of order,
+	// twice, or from behind bytes that are still to come
+	for _, sc := range scenariosC17(tier) {
+		d, ok := sc.Desc.(c17Desc)
+		if !ok {
+			continue
+		}
+		ops := strings.Join(d.Ops, "")
+		mixed := strings.Contains(ops, "B") && strings.Contains(ops, "R")
+		if strings.Contains(ops, "W") || !(mixed || d.Kind == "dlcancel" && len(d.Ops) == 2) {
+			continue
+		}
+		inner := sc.Check
+		sc.Check = func(x *vsched.Exec) (string, string) {
+			msg, key := inner(x)
+			if strings.HasPrefix(key, "race ") {
+				return "", ""
+			}
+			return msg, key
+		}
+		if tier == "quick" && sc.Bound > 2 {
+			sc.Bound = 2
+		}
+		out = append(out, sc)
+	}
 	return out
 }
